@@ -42,6 +42,9 @@ pub struct ReaderSpec {
     pub hist: Vec<SOp>,
     pub cfg: Cfg,
     pub max_executions: u64,
+    /// explore only the schedules within the preemption bound (shapes whose full
+    /// space does not fit the tier's budget; the bound is reported)
+    pub bounded_only: bool,
 }
 
 type Shared = Arc<Mutex<Option<Arc<RaftLog<VT>>>>>;
@@ -125,7 +128,9 @@ pub fn explore(spec: &ReaderSpec, vios: &mut Vec<Violation>, stats: &mut SchedSt
     // iterative context bounding: every schedule with at most 1, then at most 2
     // preemptions (small spaces, completed first), then everything. The bounded
     // passes only order the work: the last pass is the full exploration.
-    for bound in [1usize, 2] {
+    // (the pass with two preemptions is large without sleep sets: thorough tier)
+    let bounds: &[usize] = if spec.max_executions > 100_000 { &[1, 2] } else { &[1] };
+    for bound in bounds.iter().copied() {
         let mut dfs = Dfs::new(0, FaultPolicy::None);
         dfs.preempt_bound = Some(bound);
         dfs.use_sleep = false;
@@ -136,6 +141,10 @@ pub fn explore(spec: &ReaderSpec, vios: &mut Vec<Violation>, stats: &mut SchedSt
         if vios.len() > before {
             return Ok(());
         }
+    }
+    if spec.bounded_only {
+        stats.outcome_add("reader-shape-explored-within-the-preemption-bound-only");
+        return Ok(());
     }
     explore_with(spec, vios, stats, deadline, Dfs::new(0, FaultPolicy::None))
 }
@@ -155,6 +164,7 @@ pub fn replay(r: &serde_json::Value) -> i32 {
         hist: r["history"].as_array().map(|a| a.iter().map(crate::schedx::sop_from_json).collect()).unwrap_or_default(),
         cfg: crate::seqx::cfg_from_json(&r["cfg"]),
         max_executions: 1,
+        bounded_only: false,
     };
     let mut vios = vec![];
     let mut stats = SchedStats::default();
